@@ -193,123 +193,142 @@ Definition bq_idfromkey_suffixes_v0 : list N := [suf_v].
 
 (* ---------- the key-level state machine of a vector store ---------- *)
 
-(* what a cached point carries / what is in the bucket, per id *)
+(* Every operation of a vector store acts on each id separately (ItemCache is a
+   map from ids, the bucket a map from node keys (id, suffix)); only the
+   "trained" flag (threshold / centroids present) is global, and Fit treats all
+   loaded points alike.  So the state is given per id: the cache entry if any,
+   which of the two keys are in the bucket, the trained flag (the same at every
+   id), and -- ghost -- whether the id is stored (Set and not deleted since). *)
+
+(* what a cached point carries *)
 Record kentry := mkKE { ke_deleted : bool; ke_dirty : bool; ke_vec : bool; ke_code : bool }.
-Record kstate := mkKS {
-  ks_cache : list (N * kentry);          (* ic.items *)
-  ks_bucket : list (N * N);              (* node keys present: (id, suffix) *)
-  ks_trained : bool }.                   (* threshold / centroids present *)
+Record fstate := mkF {
+  f_entry : option kentry;      (* ic.items[id] *)
+  f_q : bool;                   (* bucket has NodeKey(id,'q') *)
+  f_v : bool;                   (* bucket has NodeKey(id,'v') *)
+  f_trained : bool;
+  f_live : bool }.              (* ghost: the abstract content *)
 
 Inductive kstore := KPlain | KBinary | KProduct.
+(* store kind, and whether IdFromKey accepts 'q' / 'v' *)
+Record kcfg := mkCfg { k_store : kstore; k_acc_q : bool; k_acc_v : bool }.
+Definition cfg_of (st : kstore) (accepted : list N) : kcfg :=
+  mkCfg st (existsb (N.eqb suf_q) accepted) (existsb (N.eqb suf_v) accepted).
 
-Definition kcache_get (id : N) (c : list (N * kentry)) : option kentry :=
-  option_map snd (find (fun e : N * kentry => N.eqb (fst e) id) c).
-Definition kcache_set (id : N) (e : kentry) (c : list (N * kentry)) : list (N * kentry) :=
-  (id, e) :: filter (fun x : N * kentry => negb (N.eqb (fst x) id)) c.
-Definition bucket_has (b : list (N * N)) (id s : N) : bool :=
-  existsb (fun k : N * N => N.eqb (fst k) id && N.eqb (snd k) s) b.
-Definition bucket_add (b : list (N * N)) (id s : N) : list (N * N) :=
-  if bucket_has b id s then b else (id, s) :: b.
-Definition bucket_del (b : list (N * N)) (id : N) : list (N * N) :=
-  filter (fun k : N * N => negb (N.eqb (fst k) id)) b.
-
-(* ReadFrom: 'q' first, then 'v' (binary, product); 'v' (plain) *)
-Definition kread (st : kstore) (b : list (N * N)) (id : N) : option kentry :=
+(* ReadFrom: 'q' first, then 'v' (binary, product); 'v' only (plain) *)
+Definition fread (st : kstore) (f : fstate) : option kentry :=
   match st with
-  | KPlain => if bucket_has b id suf_v then Some (mkKE false false true false) else None
-  | _ => if bucket_has b id suf_q then Some (mkKE false false false true)
-         else if bucket_has b id suf_v then Some (mkKE false false true false) else None
+  | KPlain => if f_v f then Some (mkKE false false true false) else None
+  | _ => if f_q f then Some (mkKE false false false true)
+         else if f_v f then Some (mkKE false false true false) else None
   end.
 
-(* WriteTo *)
-Definition kwrite (st : kstore) (b : list (N * N)) (id : N) (e : kentry) : list (N * N) :=
-  match st with
-  | KPlain => bucket_add b id suf_v
-  | KBinary => if ke_code e then bucket_add b id suf_q
-               else if ke_vec e then bucket_add b id suf_v else b
-  | KProduct => let b1 := if ke_vec e then bucket_add b id suf_v else b in
-                if ke_code e then bucket_add b1 id suf_q else b1
+(* IdFromKey succeeds on one of the keys of this id (cf. id_from_key_node_key) *)
+Definition fyields (c : kcfg) (f : fstate) : bool := (f_q f && k_acc_q c) || (f_v f && k_acc_v c).
+
+(* the bucket scan of ForEach, at this id: not cached, some key yields the id, read it *)
+Definition fload (c : kcfg) (f : fstate) : fstate :=
+  match f_entry f with
+  | Some _ => f
+  | None => if fyields c f then
+              match fread (k_store c) f with
+              | Some e => mkF (Some e) (f_q f) (f_v f) (f_trained f) (f_live f)
+              | None => f           (* ForEach fails with ErrNotFound *)
+              end
+            else f
   end.
 
-Inductive kop :=
-| KSet (id : N)        (* Set(id, vector): Put a dirty point; encoded iff the quantiser is trained *)
-| KDelete (id : N)     (* Delete(id) *)
-| KFit                 (* Fit() when the trigger is reached: load all, train, re-encode, mark dirty *)
-| KFlush               (* Flush() *)
-| KDrop.               (* the cache is dropped (eviction, reopen); only legal when nothing is dirty *)
+(* does ForEach hand this id to its callback *)
+Definition fenum (c : kcfg) (f : fstate) : bool :=
+  match f_entry (fload c f) with Some e => negb (ke_deleted e) | None => false end.
 
-Definition kaccepted (st : kstore) (bq : list N) : list N :=
-  match st with KBinary => bq | _ => [suf_v] end.
+Inductive pop := PSet | PDelete | PFit | PFlush | PEvict | PNop.
+Definition all_pops : list pop := [PSet; PDelete; PFit; PFlush; PEvict; PNop].
 
-(* ids IdFromKey yields over the bucket that are not cached yet, first occurrence wins *)
-Fixpoint kscan (acc : list N) (have : list N) (b : list (N * N)) : list N :=
-  match b with
-  | [] => []
-  | (id, s) :: r => if existsb (N.eqb s) acc && negb (existsb (N.eqb id) have)
-                    then id :: kscan acc (id :: have) r else kscan acc have r
-  end.
-
-(* ForEach: load what the scan finds, then visit the non-deleted entries.
-   (The isAllInCache flag is not modelled: it only skips a scan that would find
-   nothing new, as long as the bucket is written through this cache only; that
-   is the cache invariant of C08.) *)
-Definition kload (st : kstore) (bq : list N) (s : kstate) : list (N * kentry) :=
-  ks_cache s ++
-  flat_map (fun id => match kread st (ks_bucket s) id with Some e => [(id, e)] | None => [] end)
-           (kscan (kaccepted st bq) (map fst (ks_cache s)) (ks_bucket s)).
-Definition kenum (st : kstore) (bq : list N) (s : kstate) : list N :=
-  map fst (filter (fun e : N * kentry => negb (ke_deleted (snd e))) (kload st bq s)).
-
-Definition kflush (st : kstore) (s : kstate) : kstate :=
-  let b := fold_left (fun (b : list (N * N)) (e : N * kentry) =>
-             if ke_deleted (snd e) then bucket_del b (fst e)
-             else if ke_dirty (snd e) then kwrite st b (fst e) (snd e) else b) (ks_cache s) (ks_bucket s) in
-  let c := flat_map (fun e : N * kentry => if ke_deleted (snd e) then []
-                              else [(fst e, mkKE false false (ke_vec (snd e)) (ke_code (snd e)))]) (ks_cache s) in
-  mkKS c b (ks_trained s).
-
-Definition kstep (st : kstore) (bq : list N) (s : kstate) (o : kop) : kstate :=
+Definition fstep (c : kcfg) (f : fstate) (o : pop) : fstate :=
+  let st := k_store c in
   match o with
-  | KSet id =>
-      let coded := match st with KPlain => false | _ => ks_trained s end in
-      mkKS (kcache_set id (mkKE false true true coded) (ks_cache s)) (ks_bucket s) (ks_trained s)
-  | KDelete id =>
-      match kcache_get id (ks_cache s) with
-      | Some e => mkKS (kcache_set id (mkKE true (ke_dirty e) (ke_vec e) (ke_code e)) (ks_cache s))
-                       (ks_bucket s) (ks_trained s)
-      | None => match kread st (ks_bucket s) id with
-                | Some e => mkKS (kcache_set id (mkKE true false (ke_vec e) (ke_code e)) (ks_cache s))
-                                 (ks_bucket s) (ks_trained s)
-                | None => s
-                end
-      end
-  | KFit =>
+  | PSet =>      (* Set(id, vector): Put a dirty point, encoded iff the quantiser is trained *)
+      let coded := match st with KPlain => false | _ => f_trained f end in
+      mkF (Some (mkKE false true true coded)) (f_q f) (f_v f) (f_trained f) true
+  | PDelete =>   (* ItemCache.Delete: mark; an uncached id is read first, ErrNotFound is ignored *)
+      let e' := match f_entry f with
+                | Some e => Some (mkKE true (ke_dirty e) (ke_vec e) (ke_code e))
+                | None => match fread st f with
+                          | Some e => Some (mkKE true false (ke_vec e) (ke_code e))
+                          | None => None
+                          end
+                end in
+      mkF e' (f_q f) (f_v f) (f_trained f) false
+  | PFit =>      (* Fit() once the trigger is reached: ForEach, train, re-encode every visited point, mark dirty *)
       match st with
-      | KPlain => s
-      | _ => if ks_trained s then s else
-             (* binary: BinaryVector = encode(point.Vector), empty if the vector was not loaded;
-                product: CentroidIds = make([]uint8, NumSubVectors) *)
-             mkKS (map (fun e : N * kentry => if ke_deleted (snd e) then e
-                                 else (fst e, mkKE false true (ke_vec (snd e))
-                                                   (match st with KBinary => ke_vec (snd e) | _ => true end)))
-                       (kload st bq s))
-                  (ks_bucket s) true
+      | KPlain => f
+      | _ => if f_trained f then f else
+             let g := fload c f in
+             let e' := match f_entry g with
+                       | Some e => if ke_deleted e then Some e
+                                   else Some (mkKE false true (ke_vec e)
+                                                   (* binary: encode(point.Vector), empty if the vector is not loaded;
+                                                      product: make([]uint8, NumSubVectors) *)
+                                                   (match st with KBinary => ke_vec e | _ => true end))
+                       | None => None
+                       end in
+             mkF e' (f_q g) (f_v g) true (f_live g)
       end
-  | KFlush => kflush st s
-  | KDrop => if existsb (fun e : N * kentry => ke_dirty (snd e) || ke_deleted (snd e)) (ks_cache s) then s
-             else mkKS [] (ks_bucket s) (ks_trained s)
+  | PFlush =>    (* ItemCache.Flush: DeleteFrom + drop deleted entries, WriteTo dirty ones *)
+      match f_entry f with
+      | None => f
+      | Some e =>
+          if ke_deleted e then mkF None false false (f_trained f) (f_live f)
+          else if ke_dirty e then
+            let clean := Some (mkKE false false (ke_vec e) (ke_code e)) in
+            match st with
+            | KPlain => mkF clean (f_q f) true (f_trained f) (f_live f)
+            | KBinary => if ke_code e then mkF clean true (f_v f) (f_trained f) (f_live f)
+                         else if ke_vec e then mkF clean (f_q f) true (f_trained f) (f_live f)
+                         else mkF clean (f_q f) (f_v f) (f_trained f) (f_live f)
+            | KProduct => mkF clean (f_q f || ke_code e) (f_v f || ke_vec e) (f_trained f) (f_live f)
+            end
+          else f
+      end
+  | PEvict =>    (* the entry leaves the cache (eviction, reopen); dirty or deleted entries are never dropped *)
+      match f_entry f with
+      | Some e => if ke_dirty e || ke_deleted e then f else mkF None (f_q f) (f_v f) (f_trained f) (f_live f)
+      | None => f
+      end
+  | PNop => f
   end.
 
-Definition krun (st : kstore) (bq : list N) (s : kstate) (ops : list kop) : kstate :=
-  fold_left (kstep st bq) ops s.
+(* the store as a whole *)
+Inductive kop :=
+| KSet (id : N) | KDelete (id : N)
+| KFit                 (* Fit() with the trigger reached; below the trigger Fit does nothing *)
+| KFlush
+| KEvict (id : N)      (* one clean entry leaves the cache *)
+| KDropCache.          (* the whole cache is dropped (manager eviction, shard reopen) *)
 
-(* the abstract content: ids set and not deleted since *)
-Fixpoint klive (ops : list kop) (acc : list N) : list N :=
-  match ops with
-  | [] => acc
-  | KSet id :: r => klive r (if existsb (N.eqb id) acc then acc else id :: acc)
-  | KDelete id :: r => klive r (filter (fun x => negb (N.eqb x id)) acc)
-  | _ :: r => klive r acc
+Definition proj (o : kop) (id : N) : pop :=
+  match o with
+  | KSet i => if N.eqb i id then PSet else PNop
+  | KDelete i => if N.eqb i id then PDelete else PNop
+  | KFit => PFit
+  | KFlush => PFlush
+  | KEvict i => if N.eqb i id then PEvict else PNop
+  | KDropCache => PEvict
   end.
 
-Definition kstate0 (trained : bool) : kstate := mkKS [] [] trained.
+Definition kstate := N -> fstate.
+Definition kstep (c : kcfg) (s : kstate) (o : kop) : kstate := fun id => fstep c (s id) (proj o id).
+Definition krun (c : kcfg) (s : kstate) (ops : list kop) : kstate := fold_left (kstep c) ops s.
+(* a new, empty store; trained from the start = binary quantiser with a fixed threshold *)
+Definition fstate0 (trained : bool) : fstate := mkF None false false trained false.
+Definition kstate0 (trained : bool) : kstate := fun _ => fstate0 trained.
+
+Definition enumerated (c : kcfg) (s : kstate) (id : N) : bool := fenum c (s id).
+Definition stored (s : kstate) (id : N) : bool := f_live (s id).
+
+(* the configurations of the three stores; the binary one from the generated constant *)
+Definition cfg_plain : kcfg := cfg_of KPlain plain_suffixes.
+Definition cfg_product : kcfg := cfg_of KProduct [suf_v].
+Definition cfg_binary : kcfg := cfg_of KBinary bq_idfromkey_suffixes.
+Definition cfg_binary_v0 : kcfg := cfg_of KBinary bq_idfromkey_suffixes_v0.
